@@ -56,6 +56,14 @@ class Canon(ast.NodeTransformer):
                 and isinstance(node.args[0], ast.Call) and isinstance(node.args[0].func, ast.Attribute) and node.args[0].func.attr == "keys" \
                 and not node.args[0].args:
             node.args[0] = node.args[0].func.value
+        # dict.fromkeys(ITER, v) is {k: v for k in ITER}
+        if isinstance(node.func, ast.Attribute) and node.func.attr == "fromkeys" and isinstance(node.func.value, ast.Name) and node.func.value.id == "dict" \
+                and len(node.args) == 2 and not node.keywords:
+            it, val = node.args
+            if isinstance(it, (ast.GeneratorExp, ast.ListComp)):
+                return ast.DictComp(key=it.elt, value=val, generators=it.generators)
+            kv = ast.Name(id="_k", ctx=ast.Load())
+            return ast.DictComp(key=kv, value=val, generators=[ast.comprehension(target=ast.Name(id="_k", ctx=ast.Store()), iter=it, ifs=[], is_async=0)])
         # d.get(k, None) is d.get(k)
         if isinstance(node.func, ast.Attribute) and node.func.attr == "get" and len(node.args) == 2 and not node.keywords \
                 and isinstance(node.args[1], ast.Constant) and node.args[1].value is None:
@@ -323,6 +331,16 @@ def outcomes(stmts, scope: Scope | None = None, env: dict | None = None, atom=No
             if isinstance(s.target, ast.Name):
                 env2.pop(s.target.id, None)
             return walk(rest, env2, conds, events + [s], cont, seq + (("stmt", s, res(s.value, env)),))
+        if isinstance(s, ast.For) and not s.orelse and isinstance(s.target, (ast.Name, ast.Tuple)):
+            # a loop over a display of known length is its body once per element
+            it = res(s.iter, env)
+            if isinstance(it, (ast.Tuple, ast.List)) and 0 < len(it.elts) <= 6 and not any(isinstance(x, ast.Starred) for x in it.elts) \
+                    and not any(isinstance(x, (ast.Break, ast.Continue)) for b in s.body for x in ast.walk(b)):
+                unrolled = []
+                for x in it.elts:
+                    unrolled.append(ast.copy_location(ast.Assign(targets=[s.target], value=x), s))
+                    unrolled += list(s.body)
+                return walk(unrolled + list(rest), env, conds, events, cont, seq)
         if isinstance(s, (ast.For, ast.While, ast.Try, ast.Match)):
             env2 = dict(env)
             for nm in _assigned_names(s):
@@ -551,3 +569,21 @@ def list_built_by_loop(stmts, acc: str, env: dict | None = None):
         if apps:
             out.append(([t if p else ast.UnaryOp(op=ast.Not(), operand=t) for t, p in o.conds], apps[0].args[0]))
     return L.target, resolved(L.iter, env), out
+
+
+def loop_as_comprehension(func: ast.FunctionDef, acc: str):
+    """`acc = []; for T in IT: ...; acc.append(X)` in `func` (one unconditional append per turn) -> the list comprehension
+    `[X for T in IT]` with the loop body's locals resolved, else None."""
+    from .resolve import env_at
+    fills = [s_ for s_ in func.body if isinstance(s_, ast.For)]
+    r = None
+    for L in fills:
+        r = list_built_by_loop(func.body, acc, env_at(L, func, keep_params=True))
+        if r is not None:
+            break
+    if r is None:
+        return None
+    target, it, paths = r
+    if len(paths) != 1 or paths[0][0]:
+        return None
+    return ast.fix_missing_locations(ast.ListComp(elt=paths[0][1], generators=[ast.comprehension(target=clone(target), iter=it, ifs=[], is_async=0)]))
